@@ -71,62 +71,46 @@ structure St where
 
 def bad (s : St) : St × String := (s, "bad-op")
 
-def stepWorld (s : St) (toks : List String) : Option (St × String) :=
-  let w := s.w
-  let ret (w' : World) (out : String) : Option (St × String) := some ({ s with w := w' }, out)
+def parseOp (toks : List String) : Option WOp :=
   match toks with
-  | ["new"] => ret World.init "ok"
-  | ["w", r] => do
-      let r ← parseRes r
-      let (w', res, stored) := w.backendWrite r
-      ret w' (match res with | .ok => "ok " ++ encRes stored | e => encWRes e)
-  | ["sw", r, v] => do
-      let r ← parseRes r; let v ← decS v
-      let (w', res) := w.storeWrite r v
-      ret w' (encWRes res)
-  | ["d", i, v] => do
-      let i ← parseID i; let v ← decS v
-      let (w', ok) := w.delete i v
-      ret w' (if ok then "ok" else "cas")
-  | ["rw", idx, r] => do
-      let idx ← idx.toNat?; let r ← parseRes r
-      let (w', res, stored) := w.raftWrite idx r
-      ret w' (match res with | .ok => "ok " ++ encRes stored | e => encWRes e)
-  | ["rd", i, v] => do
-      let i ← parseID i; let v ← decS v
-      let (w', ok) := w.raftDelete i v
-      ret w' (if ok then "ok" else "cas")
-  | ["r", i] => do
-      let i ← parseID i
-      ret w (encRead (w.db.read i))
-  | ["l", q] => do
-      let q ← parseQuery q
-      ret w (encRows (list w.db.rows q))
-  | ["lo", i] => do
-      let i ← parseID i
-      ret w (encRows (listByOwner w.db.rows i))
-  | ["wo", q] => do
-      let q ← parseQuery q
-      let (w', h) := w.watchOpen q
-      ret w' s!"h{h}"
-  | ["wn", h] => do
-      let h ← parseHandle h
-      let (w', r) := w.watchNext h
-      match r with
-      | none => ret w' "nohandle"
-      | some r => ret w' (encNext r)
-  | ["wc", h] => do
-      let h ← parseHandle h
-      let (w', ok) := w.watchClose h
-      ret w' (if ok then "ok" else "nohandle")
-  | ["pump"] =>
-      let (w', ok) := w.pump
-      ret w' (if ok then "ok" else "empty")
-  | ["snap"] => ret w (encRows w.db.rows)
-  | ["restore", rs] => do
-      let rs ← parseRows rs
-      ret (w.restore rs) "ok"
+  | ["w", r] => do pure (.bwrite (← parseRes r))
+  | ["sw", r, v] => do pure (.swrite (← parseRes r) (← decS v))
+  | ["d", i, v] => do pure (.delete (← parseID i) (← decS v))
+  | ["rw", idx, r] => do pure (.rwrite (← idx.toNat?) (← parseRes r))
+  | ["rd", i, v] => do pure (.rdelete (← parseID i) (← decS v))
+  | ["r", i] => do pure (.read (← parseID i))
+  | ["l", q] => do pure (.list (← parseQuery q))
+  | ["lo", i] => do pure (.listOwner (← parseID i))
+  | ["wo", q] => do pure (.wopen (← parseQuery q))
+  | ["wn", h] => do pure (.wnext (← parseHandle h))
+  | ["wc", h] => do pure (.wclose (← parseHandle h))
+  | ["pump"] => some .pump
+  | ["snap"] => some .snap
+  | ["restore", rs] => do pure (.restore (← parseRows rs))
   | _ => none
+
+def encOut (op : WOp) : WOut → String
+  | .wres .ok stored => (match op with | .swrite .. => "ok" | _ => "ok " ++ encRes stored)
+  | .wres e _ => encWRes e
+  | .dres ok => if ok then "ok" else "cas"
+  | .rres r => encRead r
+  | .rows l => encRows l
+  | .handle h => s!"h{h}"
+  | .next none => "nohandle"
+  | .next (some r) => encNext r
+  | .flag ok =>
+    (match op with
+     | .pump => if ok then "ok" else "empty"
+     | _ => if ok then "ok" else "nohandle")
+  | .unit => "ok"
+
+def stepWorld (s : St) (toks : List String) : Option (St × String) :=
+  match toks with
+  | ["new"] => some ({ s with w := World.init }, "ok")
+  | _ => do
+    let op ← parseOp toks
+    let (w', out) := s.w.step op
+    some ({ s with w := w' }, encOut op out)
 
 /-! ### concurrent histories (see CV.ResLin) -/
 
